@@ -16,7 +16,7 @@ import (
 // Mut sets one field to a value. Field grammar:
 //   par2: slice_size | nrec | ids:{dup,unsorted,extra,missing,reverse} | f<i>.length | f<i>.md5 | f<i>.md516k | f<i>.pairs | f<i>.name |
 //         r<j>.exp | r<j>.len | pktlen:<file>:<k> | drop:<type>:<file> | dup:<type>:<file> | ifscid:<i> | recvinindex | recvonlyinindex
-//   par1: h<file>.<version|volnum|count|listoff|listsize|dataoff|datasize> | e<k>.<entrysize|status|size> | addentries | vol.datalen
+//   par1: h<file>.<version|volnum|count|listoff|listsize|dataoff|datasize> | e<k>.<entrysize|status|size> | addentries | vol.datalen | novols
 type Mut struct {
 	Field string `json:"field"`
 	Val   uint64 `json:"val"`
@@ -275,6 +275,7 @@ func BuildPAR1(muts []Mut) (map[string][]byte, []decl) {
 	volFirst := 1
 	u := func(v uint64) *uint64 { return &v }
 	extra := 0
+	noVols := false
 	for _, m := range muts {
 		f := m.Field
 		switch {
@@ -291,6 +292,8 @@ func BuildPAR1(muts []Mut) (map[string][]byte, []decl) {
 			}
 		case f == "addentries":
 			extra = int(m.Val)
+		case f == "novols":
+			noVols = true
 		case f == "vol.first":
 			volFirst = int(m.Val)
 		case f == "vol.datalen":
@@ -344,6 +347,9 @@ func BuildPAR1(muts []Mut) (map[string][]byte, []decl) {
 		n := "set.par"
 		if v > 0 {
 			n = fmt.Sprintf("set.p%02d", volFirst+v-1)
+		}
+		if v > 0 && noVols {
+			continue // the set has lost every parity volume: only the index is left
 		}
 		out[n] = vols[v].Encode()
 	}
